@@ -40,6 +40,11 @@ Perturbations
            of every isotope looked up, 24 further private tables created and used for a parse, 3 000 distinct strings
            parsed on the public table) and the first 24 cases of the search are judged again by the same oracle:
            what was right early in the life of a process is right late in it (bounded caches, counters, recycled slots)
+  warnerr  DeprecationWarning, PendingDeprecationWarning, FutureWarning and UserWarning are ERRORS (a test suite with
+           filterwarnings=error), except pyparsing's own warnings about the camelCase names the library still uses
+           (RuntimeWarning is left alone: numpy's divide/invalid warnings are the caller's own business): a
+           deprecated idiom inside the library would turn into an exception - or, swallowed by a broad except, into
+           missing data
 Tasks of the history properties fork one interpreter per history and must start from a process that never
 imported periodictable, so `imports` and `thread` are not applied to C08, C09 and C10.
 """
@@ -47,7 +52,7 @@ import hashlib
 import os
 import sys
 
-BITS = ["cwd", "numpy", "thread", "gc", "imports", "decimal", "pyparsing", "reload", "subclass", "rejects", "aged"]
+BITS = ["cwd", "numpy", "thread", "gc", "imports", "decimal", "pyparsing", "reload", "subclass", "rejects", "aged", "warnerr"]
 NO_PRELOAD = {"C08", "C09", "C10"}
 RELOADABLE = ["nsf", "xsf", "activation", "fasta", "cromermann", "util", "magnetic_ff", "covalent_radius",
               "crystal_structure"]
@@ -118,6 +123,18 @@ def enter(on, seed, prop, task, repo):
                 importlib.import_module("periodictable." + SUBMODULES[i])
             except ImportError:
                 pass
+    if "warnerr" in on:
+        import warnings
+        import pyparsing
+        for cat in (DeprecationWarning, PendingDeprecationWarning, FutureWarning, UserWarning):
+            warnings.filterwarnings("error", category=cat)
+        warnings.filterwarnings("ignore", category=pyparsing.PyparsingWarning)
+        try:
+            from hypothesis.errors import HypothesisWarning
+            warnings.filterwarnings("ignore", category=HypothesisWarning)
+        except ImportError:
+            pass
+        warnings.filterwarnings("ignore", category=DeprecationWarning, module=r"(hypothesis|_pytest|atheris)(\..*)?")
     if "subclass" in on:
         from . import subtable
         subtable.FLAVOUR = "overlay"
